@@ -129,6 +129,20 @@ PARAM_NAME_LINT_PROGRAMS = [
 ]
 
 
+# `$` handed DIRECTLY to a call (`Reverse($)`, `f($)`, `Some($)`): the field expression that replaces `$` is parenthesised, so
+# every generated item that embeds the key has to silence `unused_parens` for itself (the crates deny warnings)
+KEY_CALL_PROGRAMS = [
+    ('#[derive_ex(Eq, PartialEq, Ord, PartialOrd, Hash)] struct X(#[ord(key = ::core::cmp::Reverse($))] u8, u8);',
+     '#[::derive_ex::derive_ex(Eq, PartialEq, Ord, PartialOrd, Hash)]\npub struct X(#[ord(key = ::core::cmp::Reverse($))] pub u8, pub u8);\npub fn run() {}'),
+    ('#[derive(Ex)] #[derive_ex(Eq, PartialEq, Ord, PartialOrd, Hash)] enum E { A(#[ord(key = kf($))] u8), B { #[eq(key = Some($))] #[ord(key = Some($))] b: u8 } }',
+     '#[derive(::derive_ex::Ex)]\n#[derive_ex(Eq, PartialEq, Ord, PartialOrd, Hash)]\npub enum E { A(#[ord(key = kf($))] u8), B { #[eq(key = Some($))] #[ord(key = Some($))] b: u8 } }\n'
+     'pub fn kf(x: u8) -> u8 { x }\npub fn run() {}'),
+    ('#[derive_ex(Eq, PartialEq, Hash)] struct X<T: Eq + ::core::hash::Hash>(#[eq(key = Some(&$))] T, #[hash(key = ($))] #[eq(key = kf($))] u8);',
+     '#[::derive_ex::derive_ex(Eq, PartialEq, Hash)]\npub struct X<T: Eq + ::core::hash::Hash>(#[eq(key = Some(&$))] pub T, #[hash(key = ($))] #[eq(key = kf($))] pub u8);\n'
+     'pub fn kf(x: u8) -> u8 { x }\npub fn run() {}'),
+]
+
+
 # `Self` inside a field type of a struct that derives an operator: the impls for `&X` have to spell it out (there `Self` is the
 # reference)
 SELF_FIELD_OPERATOR_PROGRAMS = [
@@ -393,7 +407,7 @@ class C20(Prop):
         # operators derived from an `impl` whose operand is a reference with an explicit, load-bearing lifetime
         for k, (text, src) in enumerate(IMPL_PROGRAMS):
             mods.append(l2.Module(4 * 10 ** 6 + k, src, _Lit(text)))
-        for k, (text, src) in enumerate(RAW_PARAM_PROGRAMS + PARAM_NAME_LINT_PROGRAMS + SELF_WITH_EQ_PROGRAMS + SELF_FIELD_OPERATOR_PROGRAMS):
+        for k, (text, src) in enumerate(RAW_PARAM_PROGRAMS + PARAM_NAME_LINT_PROGRAMS + SELF_WITH_EQ_PROGRAMS + SELF_FIELD_OPERATOR_PROGRAMS + KEY_CALL_PROGRAMS):
             mods.append(l2.Module(5 * 10 ** 6 + k, src, _Lit(text)))
         nb = max(1, min(R.NPROC, len(mods) // 40 + 1))
         batches = [('c20_%d' % k, mods[k::nb]) for k in range(nb)]
